@@ -18,6 +18,7 @@ EXPLANATION = (
     "a chosen head multiplies by p and closes the group (None), a rejected head reduces the remaining mass to r - p, and a closed or exhausted group "
     "yields FALSE without a draw; compute_probability multiplies in the remaining mass of every group in which no head was chosen; M5 the initial "
     "probability is 1.0. Convergence of frequencies and evidence consistency of samples are not decided."
+    " Added after seed round 6: M8 verify_evidence gives an undrawn disjunction atom weight 0 when its group is closed and 1 when it is open, from the sampler's group record."
 )
 TECHNIQUE = "static analysis: path-wise decision-table extraction (draw/accounting pairing)"
 LEVEL_TEXT = EXPLANATION
